@@ -204,14 +204,19 @@ def schedule_distribution(cases):
 
 class C12(PropBase):
     pid = "C12"
-    translators = []
+    translators = ["c12_structure.py"]
     coq_dirs = ["C12"]
     bins = ["c12"]
     rule = ("case = (mode, tasks: lists of (module key, API or file kind), per key: suspensions, supplier answer, module identity "
             "(code_file, code_id, debug_file, debug_id), schedule). mode 0: the real futures are polled in schedule order, then "
             "round-robin; mode 1: wake-driven executor (only woken tasks are polled; the poll trace is compared); mode 2: concurrent "
             "HttpSymbolSupplier::locate_file calls against a loopback server; mode 3: mode 1 plus drops of requesters waiting for a "
-            "lock; mode 4: the tasks are children of one join_all (shared waker). Exhaustive families: 2 tasks x 1..2 lookups x 2 keys "
+            "lock; mode 4: the tasks are children of one join_all (shared waker; a schedule = group sizes of a nested join_all); "
+            "mode 5: the tasks run on a real multi-threaded tokio runtime (schedule = workers 2..8, spawn/join_all style, start delays); "
+            "mode 6: one join_all polled by hand, up to 48 children (> 30 = FuturesUnordered); in modes 5/6 only schedule-independent "
+            "observables are compared (c12_quiescent_observables_schedule_independent). Lookup kind 3 = get_file_path + fill_symbol; every "
+            "task checks the counters/stats itself after each lookup. Round-4 families: 20..520 modules on one symbolizer, bursts of up "
+            "to 300 spurious polls of a waiter, suspensions up to 60, 4..8 tasks on one in-flight key, late starters. Exhaustive families: 2 tasks x 1..2 lookups x 2 keys "
             "x suspensions 0..1 x all binary schedules of the tier's length; all 25 pairs of supplier answers (Ok and every SymbolError "
             "variant) x all 2^6 schedules; 3 tasks x all pick sequences (wake-driven, with and without drops). Random families up to 4 "
             "tasks x 3 lookups x 3 keys x 3 suspensions with spurious polls, starvation bursts and unknown task ids. A case is "
@@ -227,6 +232,12 @@ class C12(PropBase):
         "waiter slab (slab 0.4.9 index reuse), wait keys and the drop hand-over are modelled in C12/WakeModel.v / DropModel.v and "
         "checked by comparing full poll traces (modes 1 and 3)",
         "join_all: JoinAll::Small of futures-util 0.3.31 (<= 30 children) polls every unfinished child in order with the parent's waker (mode 4 compares the number of parent polls)",
+        "multi-threaded executors: C12/FineModel.v's atomic actions (wait/hit/begin/tick/complete) are the units of interleaving; inside "
+        "begin/complete the code touches pending_stats, stats (std Mutex each) and the slot (under the held async lock) one after the "
+        "other — a concurrent reader sees a state between the block's pre- and post-state; std Mutex / atomics / Arc / tokio / "
+        "futures-util's MutexLockFuture::poll race window (try_lock, register, try_lock) are trusted and only exercised (mode 5)",
+        "translate/c12_structure.py (regex-level reading of get / get_symbols / module_key / file_key / locate_file_internal; aborts on "
+        "statements it does not recognise) and coq/C12/Structure.v's reading of what each operation is in the model",
         "locate_file_internal: FileModel.v reads http.rs as cache_default(file_key).get(closure); the closure's answer is a function of the "
         "file key as long as distinct file keys do not share an on-disk cache path (mode 2 generates such keys); props/c12.py aborts when "
         "SymbolError / FileError / FileKind gain or lose a variant",
@@ -241,18 +252,30 @@ class C12(PropBase):
                 "within 2*work+ntasks polls whatever it picks (c12_wake_driven_finishes), join_all with its shared waker is a "
                 "round-robin schedule of the model, never left unwoken, at most work parent polls (c12_join_all_spurious_ok); "
                 "HttpSymbolSupplier::locate_file_internal is an instance over FileKey (c12_files_*); beyond the property: dropping a "
-                "requester that waits for a lock loses no wake-up (c12_drop_waiter_*). The model is tied to the real Symbolizer / "
+                "requester that waits for a lock loses no wake-up (c12_drop_waiter_*). Round 4: the same safety, quiescence and "
+                "no-stuck-state/bounded-measure theorems over micro schedules — one atomic action (wait/hit/begin/tick/complete) of any "
+                "task at a time, i.e. interleavings finer than polls as two worker threads produce them (c12_fine_safety, "
+                "c12_fine_quiescent, c12_fine_progress); every poll schedule is a micro schedule (c12_polls_are_micro_schedules); all "
+                "final observables (per-task results, set of supplier calls, remembered values, both counters) are independent of the "
+                "schedule (c12_quiescent_observables_schedule_independent, c12_poll_schedule_independent); the source still has the "
+                "structure the model was written from — lock held across the await, counter increments around the supplier await, "
+                "four-component key, stats classification = Model.stat_loaded/stat_corrupt, no other writer of the counters "
+                "(c12_source_structure_modelled over the regenerated Gen/C12Structure.v). The model is tied to the real Symbolizer / "
                 "HttpSymbolSupplier by polling boxed futures in the case's order (exhaustive small spaces, random larger ones, "
-                "wake-driven, join_all, drops, loopback HTTP) in debug and release; an independent oracle re-checks the property on "
+                "wake-driven, join_all flat/nested/>30 children, drops, loopback HTTP) and by real multi-threaded tokio runs (2..8 workers; "
+                "schedule-independent observables only) in debug and release; an independent oracle re-checks the property on "
                 "the implementation's answers.",
         "note": "Trusted: Coq kernel; hand-written model of CachedAsyncResult/get_symbols/futures Mutex incl. waiter slab and drop hand-over "
                 "(correspondence-checked by full poll traces, not verified); extraction + OCaml/Rust glue; the supplier is assumed to "
-                "wake the task whenever it answers Pending. Cancellation of the lock holder and multi-threaded memory ordering are "
-                "outside the property. No axioms.",
+                "wake the task whenever it answers Pending; atomicity of the five micro actions under real threads (std Mutex, "
+                "futures Mutex internals) is trusted, exercised by mode 5 only; micro-schedule liveness is a measure argument (no "
+                "fairness-to-termination theorem at that granularity; the poll-level ones are c12_no_lost_request / "
+                "c12_wake_driven_finishes). Cancellation of the lock holder is outside the property. No axioms.",
     }
     assumptions = ["no cancellation of a requester that holds the slot's lock inside the supplier (excluded by the property); dropping a "
                    "requester that merely waits is covered by c12_drop_waiter_* and mode 3",
-                   "one executor thread polls the tasks; std::sync::Mutex / Arc / atomics are assumed correct",
+                   "poll-level and wake-up theorems: one executor thread polls the tasks; micro-step theorems (c12_fine_*): any number "
+                   "of threads, each of wait/hit/begin/tick/complete atomic; std::sync::Mutex / Arc / atomics are assumed correct",
                    "locate_file_internal: distinct file keys of a configuration have distinct on-disk cache paths (otherwise one "
                    "download can satisfy the other's local lookup — C16's subject)"]
 
